@@ -920,6 +920,21 @@ pub fn restricted_scope_duplicates(nm: &Names) -> Vec<F> {
             }
         }
     }
+    // ... and with a NESTED restricted quantifier (domain %e%: completely empty / empty for some colours in the label families)
+    // evaluated after PSI inside the scope - scope bookkeeping has an early-return path for empty domains
+    for q1 in ["3", "V", "!"] {
+        for q3 in ["3", "V", "!"] {
+            for psi in &psis {
+                for glue in ["&", "|"] {
+                    let inside = format!("({q1}{{x}} in %d%: ({psi} {glue} ({q3}{{y}} in %e%: (@{{y}}: a))))");
+                    for outside in [format!("(!{{y}}: (@{{y}}: {psi}))"), psi.to_string()] {
+                        out.push(f(&format!("{inside} | {outside}"), nm));
+                        out.push(f(&format!("{outside} & {inside}"), nm));
+                    }
+                }
+            }
+        }
+    }
     out.sort();
     out.dedup();
     out
